@@ -30,11 +30,11 @@ def gen_plan(seed, i, tier):
         init = {'settle': rng.chance(0.5), 'builder': {'version': ver, 'salt': rng.below(1 << 30), 'nodes': rng.below(3),
                                                        'shapes': [hist.shape_spec(rng, ver, 'quick', name='s%d' % k) for k in range(rng.range(1, 2))]}}
     else:
-        types = synth.block_types()
-        t = rng.choice(types)
-        while t in synth.BUILDER_ONLY:
-            t = rng.choice(types)
-        init = synth.synth_init(rng.choice(synth.VERSIONS), t, rng.below(1 << 20), k=2)
+        # (synthesised files of every block type are copied in the sweep below; edit sequences run on samples and built models,
+        # whose geometry is well-formed: an edit that faults on a malformed synthesised shape says nothing about copying)
+        ver = rng.choice(['OB', 'FO3', 'SK', 'SSE', 'FO4', 'FO76'])
+        init = {'settle': rng.chance(0.5), 'builder': {'version': ver, 'salt': rng.below(1 << 30), 'nodes': rng.below(4),
+                                                       'shapes': [hist.shape_spec(rng, ver, 'quick', name='s%d' % k) for k in range(rng.range(1, 3))]}}
     steps = [{'op': 'Copy', 'from': 0, 'to': 1, 'how': rng.weighted([('ctor', 5), ('assign_empty', 2), ('assign_loaded', 2)])}]
     if steps[0]['how'] == 'assign_loaded':
         steps[0]['loaded'] = {'sample': rng.choice(names)}
@@ -66,7 +66,12 @@ def gen_plan(seed, i, tier):
 
 
 def jobs(tier, seed, pool):
-    return [{'plan': gen_plan(seed, i, tier), 'meta': {}} for i in range(RUNS[tier])]
+    out = [{'plan': gen_plan(seed, i, tier), 'meta': {}} for i in range(RUNS[tier])]
+    # sweep: every registered block type x version, copied once (copy-construct or assign) and compared byte for byte
+    for idx, (v, t, s) in enumerate(synth.population(1 if tier == 'quick' else 6, seed0=seed)):
+        steps = [{'op': 'Copy', 'from': 0, 'to': 1, 'how': 'ctor' if idx % 3 else 'assign_empty'}, {'op': 'Destroy', 'slot': idx % 2}]
+        out.append({'plan': {'property': PROP, 'profile': 'copy', 'init': synth.synth_init(v, t, s, k=2), 'steps': steps, 'timeout_s': 20}, 'meta': {}})
+    return out
 
 
 account = hist.account
